@@ -42,6 +42,29 @@ META_RE = re.compile(r"^\s*//\s*@(\w+)\s*(.*)$")
 FN_RE = re.compile(r"^\s*(?:pub\s+)?fn\s+(\w+)\s*\(")
 
 
+def make_harness(name, mod, fname, ln, meta, attrs):
+    h = {"name": name, "full": mod + "::" + name, "file": fname, "line": ln, "meta": meta, "attrs": attrs}
+    hm = {}
+    for item in " ".join(meta.get("harness", [])).split():
+        if "=" in item:
+            k, v = item.split("=", 1)
+            hm[k] = v
+    h["props"] = hm.get("props", "").split(",") if hm.get("props") else []
+    h["tier"] = hm.get("tier", "quick")
+    h["cost"] = float(hm.get("cost", "10"))
+    h["flags"] = hm.get("flags", "").split(",") if hm.get("flags") else []
+    h["unwind"] = None
+    h["stubs"] = []
+    for a in " ".join(attrs).split("#["):
+        mu = re.match(r"kani::unwind\((\d+)\)", a)
+        if mu:
+            h["unwind"] = int(mu.group(1))
+        ms = re.match(r"kani::stub\((.*)\)\]", a.strip())
+        if ms:
+            h["stubs"].append(ms.group(1).strip())
+    return h
+
+
 def discover():
     """Parse harness/*.rs: every #[kani::proof] fn with its @-metadata, unwind and stubs."""
     out = {}
@@ -50,7 +73,32 @@ def discover():
             continue
         mod = module_path(fname)
         meta, attrs, in_proof = {}, [], False
+        macros, in_macro = {}, None
         for ln, line in enumerate(open(os.path.join(HARNESS_DIR, fname)), 1):
+            # harness-generating macros: remember the attributes in their body, skip the body itself
+            mm = re.match(r"^macro_rules!\s*(\w+)", line)
+            if mm:
+                in_macro = mm.group(1)
+                macros[in_macro] = []
+                continue
+            if in_macro:
+                if line.rstrip() == "}":
+                    in_macro = None
+                elif line.strip().startswith("#[kani::"):
+                    macros[in_macro].append(line.strip())
+                continue
+            mi = re.match(r"^\s*(\w+)!\((\w+),\s*(\w+)", line)
+            if mi and mi.group(1) in macros and meta.get("harness"):
+                mattrs = macros[mi.group(1)]
+                half = len(mattrs) // 2 if mi.group(3).endswith("_canary") else len(mattrs)
+                names = [mi.group(2)] + ([mi.group(3)] if mi.group(3).endswith("_canary") else [])
+                for j, name in enumerate(names):
+                    out[name] = make_harness(name, mod, fname, ln, meta if j == 0 else {}, mattrs[:half])
+                    um = re.search(r",\s*(\d+)\s*\)\s*;\s*$", line)
+                    if um:
+                        out[name]["unwind"] = int(um.group(1))
+                meta, attrs, in_proof = {}, [], False
+                continue
             m = META_RE.match(line)
             if m:
                 key, val = m.group(1), m.group(2).strip()
@@ -65,26 +113,7 @@ def discover():
             m = FN_RE.match(line)
             if m and in_proof:
                 name = m.group(1)
-                h = {"name": name, "full": mod + "::" + name, "file": fname, "line": ln, "meta": meta, "attrs": attrs}
-                hm = {}
-                for item in " ".join(meta.get("harness", [])).split():
-                    if "=" in item:
-                        k, v = item.split("=", 1)
-                        hm[k] = v
-                h["props"] = hm.get("props", "").split(",") if hm.get("props") else []
-                h["tier"] = hm.get("tier", "quick")
-                h["cost"] = float(hm.get("cost", "10"))
-                h["flags"] = hm.get("flags", "").split(",") if hm.get("flags") else []
-                h["unwind"] = None
-                h["stubs"] = []
-                for a in " ".join(attrs).split("#["):
-                    mu = re.match(r"kani::unwind\((\d+)\)", a)
-                    if mu:
-                        h["unwind"] = int(mu.group(1))
-                    ms = re.match(r"kani::stub\((.*)\)\]", a.strip())
-                    if ms:
-                        h["stubs"].append(ms.group(1).strip())
-                out[name] = h
+                out[name] = make_harness(name, mod, fname, ln, meta, attrs)
                 meta, attrs, in_proof = {}, [], False
             elif s and not s.startswith("//") and not s.startswith("#["):
                 if not in_proof:
@@ -209,8 +238,13 @@ def parse_log(text):
         r["vccs"], r["vccs_remaining"] = (int(m.group(1)), int(m.group(2))) if m else (None, None)
         m = re.search(r"(\d+) variables, (\d+) clauses", body)
         r["variables"], r["clauses"] = (int(m.group(1)), int(m.group(2))) if m else (None, None)
-        r["solver_s"] = num(r"Runtime Solver: ([\d.e+-]+)s")
-        r["decision_s"] = num(r"Runtime decision procedure: ([\d.e+-]+)s")
+        def total(pat):
+            xs = [float(x) for x in re.findall(pat, body)]
+            return round(sum(xs), 4) if xs else None
+
+        r["solver_s"] = total(r"Runtime Solver: ([\d.e+-]+)s")
+        r["decision_s"] = total(r"Runtime decision procedure: ([\d.e+-]+)s")
+        r["solver_calls"] = len(re.findall(r"Runtime Solver: ", body))
         r["verification_s"] = num(r"Verification Time: ([\d.e+-]+)s")
         m = re.search(r"^VERIFICATION:- (\w+)", body, flags=re.M)
         r["verdict"] = m.group(1) if m else "NONE"
@@ -250,8 +284,14 @@ def functions_encoded(r):
     return sorted(fns)
 
 
-def failing_checks(r):
-    return [c for c in r["checks"] if c["status"] not in ("SUCCESS",)]
+def failing_checks(r, flags=()):
+    # UNREACHABLE = the check sits in code CBMC proved unreachable from the harness: vacuously fine
+    bad = [c for c in r["checks"] if c["status"] not in ("SUCCESS", "UNREACHABLE")]
+    if "nomem" in flags:
+        # harnesses that opt out of memory-safety checking also opt out of the assertions inside Kani's allocator
+        # model (kani_lib.c: __rust_alloc/__rust_dealloc); they fire on fabricated values, never on findutils code
+        bad = [c for c in bad if not (c["name"].startswith("__rust_") and "kani_lib.c" in c["loc"])]
+    return bad
 
 
 def classify(h, r):
@@ -260,13 +300,13 @@ def classify(h, r):
         return "inconclusive", "no result (build failure, timeout or crash before this harness)"
     if r["cbmc_error"]:
         return "inconclusive", "CBMC error / out of memory"
-    bad = failing_checks(r)
+    bad = failing_checks(r, h.get("flags", ()))
     unwind = [c for c in bad if "unwinding assertion" in c["desc"]]
     if unwind:
         return "inconclusive", "unwinding assertion failed (bound too small): %s" % unwind[0]["loc"]
-    undet = [c for c in bad if c["status"] in ("UNDETERMINED", "UNREACHABLE")]
+    undet = [c for c in bad if c["status"] != "FAILURE"]
     fails = [c for c in bad if c["status"] == "FAILURE"]
-    if r["verdict"] == "SUCCESSFUL" and not bad:
+    if r["verdict"] in ("SUCCESSFUL", "FAILED") and not bad and r["checks"]:
         unsat_cov = [c for c in r["covers"] if c["status"] != "SATISFIED"]
         if unsat_cov:
             return "inconclusive", "vacuity guard: cover not satisfied: %s" % unsat_cov[0]["desc"]
@@ -293,7 +333,10 @@ def native_replay(h, witness):
         return None, "no native replayer for this harness (solver verdict on the real code stands alone)"
     sys.path.insert(0, os.path.join(VERIF, "replay"))
     import importlib
-    mod = importlib.import_module("replayers")
+    try:
+        mod = importlib.import_module("replayers")
+    except Exception as e:  # noqa
+        return None, "replayer module failed to load: %r" % (e,)
     fn = getattr(mod, names[0].split()[0], None)
     if fn is None:
         return None, "replayer %s missing" % names[0]
@@ -397,7 +440,7 @@ def run_check(prop, tier, only=None, jobs=None, seed=0):
         q = {"harness": h["full"], "role": "main", "status": status, "detail": detail, "log": logpath}
         if r:
             q.update({k: r[k] for k in ("symex_s", "steps", "vccs", "vccs_remaining", "variables", "clauses", "solver_s",
-                                        "decision_s", "verification_s")})
+                                        "decision_s", "solver_calls", "verification_s")})
             q["checks"] = len(r["checks"])
             q["covers_satisfied"] = sum(1 for c in r["covers"] if c["status"] == "SATISFIED")
             q["covers_total"] = len(r["covers"])
@@ -442,7 +485,7 @@ def run_check(prop, tier, only=None, jobs=None, seed=0):
             queries.append(kq)
             entry = kf_by_harness.get(k["name"])
             if kstatus == "failed" and entry:
-                labels = [c["desc"] for c in failing_checks(kr) if c["status"] == "FAILURE"]
+                labels = [c["desc"] for c in failing_checks(kr, k.get("flags", ())) if c["status"] == "FAILURE"]
                 if all(any(l in d for l in entry["labels"]) for d in labels):
                     known.append(entry)
                     samples.append({"harness": k["full"], "kind": "known finding reproduced by the solver", "failing": labels,
